@@ -34,6 +34,7 @@ DReqInit(advertise, initAuto) ==
     cause   |-> "",         \* error class that must end Dial ("" = none)
     mustErr |-> FALSE,      \* a non-recoverable cause was seen: Dial must return an error
     okNil   |-> FALSE,      \* the task returned nil / canceled: Dial must return nil
+    rstErr  |-> FALSE,      \* a restore failed with an error that is not tolerated: Dial must report it and stop
     tolerated |-> FALSE,    \* the last restore failed with a tolerated error
     cancelAt|-> -1,
     retAt   |-> -1,
@@ -63,6 +64,7 @@ OnDDial(m, e) ==      \* one dial attempt returned e.res at e.t (k > 0 iff ok)
             ELSE IF m.open # 0 THEN DFlag(m, "c11-dial-while-connection-open")
             ELSE IF e.res # "ok" /\ m.socks # {} THEN DFlag(m, "c11-socket-left-open-by-failed-dial")
             ELSE IF e.res = "ok" /\ m.socks # {e.k} THEN DFlag(m, "c11-connection-without-its-socket")
+            ELSE IF m.rstErr THEN DFlag(m, "c11-restore-error-not-reported")
             ELSE IF m.mustErr THEN DFlag(m, "c10-dial-after-unrecoverable-error")
             ELSE IF m.okNil THEN DFlag(m, "c10-dial-after-task-finished")
             ELSE IF ~m.first /\ m.retry = -1 THEN DFlag(m, "c10-unexpected-dial")
@@ -107,7 +109,7 @@ OnDSet(m, e) ==
   ELSE LET m2 == IF e.val # m.saved THEN DFlag(m1, "c11-autoconf-restored-to-wrong-value") ELSE m1 IN
        IF e.res = "ok" THEN [m2 EXCEPT !.sysctl = e.val]
        ELSE IF e.res \in {"perm", "notexist"} THEN [m2 EXCEPT !.tolerated = TRUE]      \* sticky
-       ELSE [m2 EXCEPT !.mustErr = TRUE, !.cause = "autoconf-restore", !.tolerated = TRUE]
+       ELSE [m2 EXCEPT !.mustErr = TRUE, !.cause = "autoconf-restore", !.tolerated = TRUE, !.rstErr = TRUE]
 
 OnDCancel(m, e) == IF m.cancelAt = -1 THEN [m EXCEPT !.cancelAt = e.t] ELSE m
 OnDHold(m, e)    == [m EXCEPT !.nHeld = @ + 1]
@@ -128,6 +130,7 @@ OnDRet(m, e) ==       \* Dial returned e.res in {"nil", "err"}
   LET m1 == IF m.retAt # -1 THEN DFlag(m, "returned-twice")
             ELSE IF m.open # 0 THEN DFlag(m, "c11-return-without-cleanup")
             ELSE IF m.socks # {} THEN DFlag(m, "c11-return-with-socket-open")
+            ELSE IF m.rstErr /\ e.res # "err" THEN DFlag(m, "c11-restore-error-not-reported")     \* (a stop request is no excuse)
             ELSE IF m.mustErr /\ e.res # "err" /\ m.cancelAt = -1 THEN DFlag(m, "c10-error-not-reported")
             ELSE IF ~m.mustErr /\ e.res = "err" THEN DFlag(m, "c10-unexpected-error")
             ELSE IF ~m.mustErr /\ ~m.okNil /\ m.cancelAt = -1 THEN DFlag(m, "c10-returned-without-cause")
